@@ -221,3 +221,44 @@ M('c09_replaced_reports_new_id', ['C09', 'C08'], ['C09-R2'], 'Rename reports the
   (MEMBER, '                (true, ConflictResult::Replaced(update.id))', '                (true, ConflictResult::Replaced(known_member.id.clone()))'))
 M('c09_forget_from_elsewhere', ['C09', 'C11'], ['C09-R5'], 'Down records are also dropped when the probe wraps around',
   (LIB, '        let probe_was_incomplete = !self.probe.validate();\n', '        let probe_was_incomplete = !self.probe.validate();\n        let _ = self.members.remove_if_down(&self.identity);\n'))
+
+# ---------------------------------------------------------------- C10
+M('c10_bump_on_stale_suspicion', ['C10'], ['C10-R1'], 'incarnation bumped also for a suspicion about an older incarnation',
+  (LIB, '                            "Received suspicion about old incarnation",\n                        );\n                        false', '                            "Received suspicion about old incarnation",\n                        );\n                        true'),
+  )
+M('c10_bump_without_max', ['C10'], ['C10-R1'], 'bump ignores a higher incoming incarnation (refutation not strong enough)',
+  (LIB, 'self.incarnation = incarnation.saturating_add(1);', 'self.incarnation = self.incarnation.saturating_add(1);'))
+M('c10_no_bump_on_higher', ['C10'], ['C10-R1'], 'no bump when the suspicion names a higher incarnation than the current one',
+  (LIB, '''                            "Suspicion on incarnation higher than current",
+                        );
+                        true''', '''                            "Suspicion on incarnation higher than current",
+                        );
+                        false'''))
+M('c10_reset_keeps_incarnation', ['C10'], ['C10-R1'], 'identity change keeps the old incarnation',
+  (LIB, '        self.incarnation = Incarnation::default();\n        self.timer_token = self.timer_token.wrapping_add(1);', '        self.timer_token = self.timer_token.wrapping_add(1);'))
+M('c10_max_check_off_by_one', ['C10'], ['C10-R1'], 'MAX handling compares against MAX - 1... only own incarnation considered',
+  (LIB, 'let incarnation = Incarnation::max(incarnation, self.incarnation);', 'let incarnation = Incarnation::max(incarnation.min(7), self.incarnation);'))
+M('c10_suspect_bumps_known_incarnation', ['C10', 'C12'], ['C10-R3'], 'probe failure suspects the member at incarnation + 1 (fabricated)',
+  (LIB, 'let as_suspect = Member::new(failed.id().clone(), failed.incarnation(), State::Suspect);', 'let as_suspect = Member::new(failed.id().clone(), failed.incarnation().saturating_add(1), State::Suspect);'))
+M('c10_gossip_different_update', ['C10', 'C15'], ['C10-R3'], 'what is gossiped is not the update that was applied',
+  (LIB, '                let data = self.serialize_member(update)?;', '                let data = self.serialize_member(Member::new(id.clone(), update.incarnation(), State::Alive))?;'))
+M('c10_defunct_skipped_when_disconnected', ['C10', 'C08'], ['C10-R4', 'C08-R5'], 'a non-renewable instance told it is Down stays as it is when it was idle',
+  (LIB, '''                if !self.attempt_rejoin(&mut runtime)? {
+                    self.become_undead(runtime);
+                }
+            }
+        }
+        Ok(())''', '''                if !self.attempt_rejoin(&mut runtime)? {
+                    if self.connection_state == ConnectionState::Connected {
+                        self.become_undead(runtime);
+                    }
+                }
+            }
+        }
+        Ok(())'''))
+M('c10_rejoin_with_losing_identity', ['C10', 'C05'], ['C10-R4'], 'renewed identity accepted even if it does not win the conflict',
+  (LIB, '} else if !new_identity.win_addr_conflict(&self.identity) {', '} else if self.identity.win_addr_conflict(&new_identity) && new_identity.win_addr_conflict(&self.identity) {'))
+M('c10_previous_identity_not_declared_down', ['C10'], ['C10-R4'], 'change_identity never queues Down(previous)',
+  (LIB, '            if !previous_is_down {\n                let addr', '            if previous_is_down {\n                let addr'))
+M('c10_identity_without_reset', ['C10', 'C13'], ['C10-R2'], 'identity changed without resetting incarnation/epoch when idle',
+  (LIB, '            let previous_id = mem::replace(&mut self.identity, new_id);\n\n            self.reset();', '            let previous_id = mem::replace(&mut self.identity, new_id);\n\n            if self.connection_state != ConnectionState::Disconnected {\n                self.reset();\n            }'))
